@@ -65,7 +65,7 @@ func (self *Weights) choose() (int,error) {
 	if tw == 0 {
 		return -1,EWEIGHTNOTFOUND
 	}
-	return self.find(weight(rand.Int63n(int64(tw))))
+	return self.find(weight(rand.Int63n(int64(tw)))+1)
 }
 
 // topWeight returns the highest weight value
